@@ -634,12 +634,36 @@ func (e *E) UnmarshalText(d []byte) error   { return e.set(d) }
 func (e *E) UnmarshalBinary(d []byte) error { return e.set(d) }
 func (e *E) UnmarshalJSON(d []byte) error   { return e.set(d) }
 
+// MP and SL are a map type and a slice type with pointer-receiver unmarshalers; input "keep" leaves the receiver as it is.
+type MP map[string]string
+type SL []string
+
+func (m *MP) set(d []byte) error {
+	if string(d) != "keep" {
+		*m = MP{"data": string(d)}
+	}
+	return nil
+}
+func (m *MP) UnmarshalText(d []byte) error   { return m.set(d) }
+func (m *MP) UnmarshalBinary(d []byte) error { return m.set(d) }
+func (m *MP) UnmarshalJSON(d []byte) error   { return m.set(d) }
+func (l *SL) set(d []byte) error {
+	if string(d) != "keep" {
+		*l = SL{string(d)}
+	}
+	return nil
+}
+func (l *SL) UnmarshalText(d []byte) error   { return l.set(d) }
+func (l *SL) UnmarshalBinary(d []byte) error { return l.set(d) }
+func (l *SL) UnmarshalJSON(d []byte) error   { return l.set(d) }
+
 type shapeArg struct {
 	Shape  string `json:"shape"`
 	Helper string `json:"helper"`
 }
 
-var shapes = []string{"before_hook_repairs_value", "before_hook_spoils_value", "before_hook_replaces_pointer", "interface_typed_T_satisfied", "interface_typed_T_unmet", "own_Equal_method_hides_difference", "own_Equal_method_equal_values"}
+var shapes = []string{"before_hook_repairs_value", "before_hook_spoils_value", "before_hook_replaces_pointer", "interface_typed_T_satisfied", "interface_typed_T_unmet", "own_Equal_method_hides_difference", "own_Equal_method_equal_values",
+	"map_typed_T_untouched_receiver", "map_typed_T_value", "map_typed_T_differs", "slice_typed_T_untouched_receiver", "slice_typed_T_differs"}
 
 // probeShape: each shape is a one-case list whose verdict is known by construction.
 func probeShape(a shapeArg) (string, string) {
@@ -715,6 +739,37 @@ func probeShape(a shapeArg) (string, string) {
 				test.UnmarshalBinary(rec, []test.CaseBinary[E]{{Value: want, Data: []byte("data")}}, nil)
 			default:
 				test.UnmarshalJSON(rec, []test.CaseJSON[E]{{Value: want, Data: "data"}}, nil)
+			}
+		case "map_typed_T_untouched_receiver", "map_typed_T_value", "map_typed_T_differs", "slice_typed_T_untouched_receiver", "slice_typed_T_differs":
+			// T is a map / slice type: the helper unmarshals into the zero value of T (a nil map / slice)
+			if m {
+				return nil
+			}
+			in := "keep"
+			var wantM MP
+			var wantS SL
+			switch a.Shape {
+			case "map_typed_T_value":
+				in, wantM = "x", MP{"data": "x"}
+			case "map_typed_T_differs":
+				in, wantM, mustFail = "x", MP{"data": "y"}, true
+			case "slice_typed_T_differs":
+				in, wantS, mustFail = "x", SL{"y"}, true
+			}
+			isMap := strings.HasPrefix(a.Shape, "map")
+			switch {
+			case a.Helper == "UnmarshalText" && isMap:
+				test.UnmarshalText(rec, []test.CaseText[MP]{{Value: wantM, Data: in}}, nil)
+			case a.Helper == "UnmarshalBinary" && isMap:
+				test.UnmarshalBinary(rec, []test.CaseBinary[MP]{{Value: wantM, Data: []byte(in)}}, nil)
+			case isMap:
+				test.UnmarshalJSON(rec, []test.CaseJSON[MP]{{Value: wantM, Data: in}}, nil)
+			case a.Helper == "UnmarshalText":
+				test.UnmarshalText(rec, []test.CaseText[SL]{{Value: wantS, Data: in}}, nil)
+			case a.Helper == "UnmarshalBinary":
+				test.UnmarshalBinary(rec, []test.CaseBinary[SL]{{Value: wantS, Data: []byte(in)}}, nil)
+			default:
+				test.UnmarshalJSON(rec, []test.CaseJSON[SL]{{Value: wantS, Data: in}}, nil)
 			}
 		}
 		return nil
